@@ -401,8 +401,8 @@ fn interp_load_to_indirect(location: IndirectLocation, reg: Register8, registers
   let address = get_register_16(registers, address_register);
   memory_write_byte(mem, address, value);
   match location {
-    IndirectLocation::HLIncrement => registers.hl = registers.hl.wrapping_add(1),
-    IndirectLocation::HLDecrement => registers.hl = registers.hl.wrapping_sub(1),
+    IndirectLocation::HLIncrement => registers.hl = registers.hl.wrapping_add(1) & 0xffff,
+    IndirectLocation::HLDecrement => registers.hl = registers.hl.wrapping_sub(1) & 0xffff,
     _ => (),
   }
   registers.ip += length;
@@ -428,8 +428,8 @@ fn interp_load_from_indirect(reg: Register8, location: IndirectLocation, registe
   let value = memory_read_byte(mem, address);
   set_register(registers, reg, value);
   match location {
-    IndirectLocation::HLIncrement => registers.hl = registers.hl.wrapping_add(1),
-    IndirectLocation::HLDecrement => registers.hl = registers.hl.wrapping_sub(1),
+    IndirectLocation::HLIncrement => registers.hl = registers.hl.wrapping_add(1) & 0xffff,
+    IndirectLocation::HLDecrement => registers.hl = registers.hl.wrapping_sub(1) & 0xffff,
     _ => (),
   }
   registers.ip += length;
